@@ -23,10 +23,10 @@ RENDER_C = "compiler/bitproto/renderer/impls/c/renderer_c.py"
 VARIANTS = {
     "std[le]": (False, "both", False, ["C03", "C07", "C11", "C12", "C14", "C16"]),
     "std[be]": (False, "both", True, ["C06", "C07", "C14"]),
-    "opt[both,le]": (True, "both", False, ["C04", "C07", "C14"]),
+    "opt[both,le]": (True, "both", False, ["C04", "C07", "C12", "C14"]),
     "opt[both,be]": (True, "both", True, ["C04", "C06", "C14"]),
     "opt[little]": (True, "little", False, ["C04"]),
-    "opt[big]": (True, "big", True, ["C04", "C06", "C07"]),
+    "opt[big]": (True, "big", True, ["C04", "C06", "C07", "C12"]),
 }
 
 
@@ -80,6 +80,11 @@ def _mk(u: family.Unit, variant: str):
                     E.cur_props = [p for p in props if p != "C16"]
                     genc.run_encode(E, prog, msg, big)
                     genc.run_decode(E, prog, msg, big)
+                    if optimize and big:
+                        # the big-endian -O decoder zeroes *m itself: its result may not depend on what the struct held before.  (The
+                        # little-endian -O decoder and standard mode need the documented zero-initialised struct: storage bytes above
+                        # the wire bytes - uint17 in a uint32_t - are never written.)
+                        genc.run_decode(E, prog, msg, big, label="decode-into-used-struct", dirty_target=True)
                     if "C16" in props:
                         E.cur_props = ["C16"]
                         genc.run_json(E, prog, msg)
@@ -93,7 +98,16 @@ def _mk(u: family.Unit, variant: str):
             if not E.obls:
                 res.error = "no obligations generated"
         except CI.CUnsupported as e:
-            res.error = "unsupported C construct: %s" % (e,)
+            if "clang failed" in str(e):
+                # the C front end rejects the GENERATED translation unit (redefinition, undeclared type, ...): a defect of the
+                # generator for this schema, not a limit of the interpreter
+                E2 = EN.Engine(pid, "generated C (%s) of %s" % (variant, u.schema.fname()), RENDER_C, list(props), scope="program")
+                first = [l for l in str(e).splitlines() if "error:" in l][:1]
+                E2.oblige("generated-c-is-accepted-by-the-c-front-end (%s)" % (first[0].split("error:")[1].strip()[:100] if first else "clang failed"),
+                          z3.BoolVal(False))
+                res.obls = E2.obls
+            else:
+                res.error = "unsupported C construct: %s" % (e,)
         except EN.Unsupported as e:
             res.error = "unsupported construct: %s" % (e,)
         except Exception as e:
@@ -116,13 +130,15 @@ for _t in family.kind_tags("thorough"):
     _u = family.leaf_unit(_t)
     _u.tier = "quick" if _t in _quick else "thorough"
     _u.props_c = ["C03", "C04", "C06", "C07", "C14", "C16"]
+    if _t in ("uint48", "int63", "uint9"):
+        _u.props_c.append("C12")      # alias transparency per program: plain and aliased positions against the same layout (wide and narrow)
     for _v in VARIANTS:
         _mk(_u, _v)
 for _u in family.composite_units():
     if _u.name == "composite:enum-default-nonzero":
         continue        # a Python-only finding (C decodes into zeroed storage)
     _u.props_c = ["C03", "C04", "C06", "C07", "C12", "C16"]
-    if "imports" in _u.tags or _u.name == "composite:same-named-nested":
+    if "imports" in _u.tags or _u.name in ("composite:same-named-nested", "composite:deep-same-names"):
         _u.props_c.append("C11")        # the generated code binds each reference to the definition the schema resolves it to
     for _v in VARIANTS:
         if VARIANTS[_v][0] and "traditional" not in _u.tags and "traditional-part" not in _u.tags:
@@ -134,7 +150,7 @@ for _u in family.composite_units():
 for _name, _schema, _top, _vmap in family.rewrite_variants():
     _u = family.Unit("rewrite:" + _name, _schema, [_top], tags=("rewrite", "traditional"))
     _u.props_c = ["C12"]
-    for _v in ("std[le]", "opt[both,le]"):
+    for _v in ("std[le]", "opt[both,le]", "opt[big]"):
         _o, _e, _b, _pp = VARIANTS[_v]
         VARIANTS[_v] = (_o, _e, _b, sorted(set(_pp) | {"C12"}))
         _mk(_u, _v)
@@ -220,8 +236,17 @@ def _mk_filter(u: family.Unit, lang: str):
                             E.oblige("%s/%s-textually-identical" % (tag, c), z3.BoolVal(c in f_sel and f_sel[c] == f_all.get(c)))
                         is_codec = (lambda k: k.startswith(("Encode", "Decode"))) if lang == "c" else (lambda k: k.endswith((".Encode", ".Decode")))
                         # exactly the NAMED message gets them (messages nested in it are messages of their own and were not named)
+                        # -F selects by message NAME: a nested message that carries the same name (Pack.Cell next to Cell) is named too
+                        def all_msgs(ms):
+                            for m_ in ms:
+                                yield m_
+                                yield from all_msgs([x for x in getattr(m_, "nested", []) if isinstance(x, L.Message)])
+                        same = [m_ for m_ in all_msgs(tops) if m_.name == sel.name]
+                        flat = lambda m_: ("".join(w[:1].upper() + w[1:] for w in "_".join(L._path(m_)).split("_")) if lang == "go"
+                                           else genc.c_struct_name(m_))
+                        want_codec = sorted(c for m_ in same for c in codec(flat(m_)))
                         E.oblige("%s/no-function-for-unselected" % tag,
-                                 z3.BoolVal(sorted(k for k in f_sel if is_codec(k)) == sorted(codec(selname))))
+                                 z3.BoolVal(sorted(k for k in f_sel if is_codec(k)) == want_codec))
                         # everything that is not an encoder / decoder stays: same remaining functions, same declarations
                         rest_all = {k: v for k, v in f_all.items() if not is_codec(k)}
                         rest_sel = {k: v for k, v in f_sel.items() if not is_codec(k)}
